@@ -9,14 +9,19 @@ pub(crate) fn add_bigdecimals(
     mut b: BigDecimal,
 ) -> BigDecimal {
     if b.is_zero() {
+        verif_probe!(Add_RhsZero);
         a.extend_scale_to(b.scale);
         return a;
     }
 
     if a.is_zero() {
+        verif_probe!(Add_LhsZero);
         b.extend_scale_to(a.scale);
         return b;
     }
+
+    verif_probe_if!(a.scale == b.scale, Add_Aligned);
+    verif_probe_if!(a.scale != b.scale, Add_Unaligned);
 
     let (a, b) = match a.scale.cmp(&b.scale) {
         Ordering::Equal => (a, b),
@@ -56,16 +61,19 @@ where
     let lhs = lhs.into();
     let rhs = rhs.into();
     if rhs.is_zero() {
+        verif_probe!(AddRef_RhsZero);
         let scale_diff = rhs.scale.saturating_sub(lhs.scale).max(0).min(15);
         return lhs.to_owned_with_scale(lhs.scale + scale_diff);
     }
     if lhs.is_zero() {
+        verif_probe!(AddRef_LhsZero);
         let scale_diff = lhs.scale.saturating_sub(rhs.scale).max(0).min(15);
         return rhs.to_owned_with_scale(rhs.scale + scale_diff);
     }
 
     match lhs.scale.cmp(&rhs.scale) {
         Equal => {
+            verif_probe!(AddRef_Aligned);
             add_aligned_bigdecimal_ref_ref(lhs, rhs)
         }
         Greater => {
@@ -101,15 +109,18 @@ pub(crate) fn addassign_bigdecimal_ref<'a, T: Into<BigDecimalRef<'a>>>(
     let rhs = rhs.into().to_owned();
     match lhs.scale.cmp(&rhs.scale) {
         Ordering::Less => {
+            verif_probe!(AddAssign_Less);
             let scaled = lhs.with_scale(rhs.scale);
             lhs.int_val = scaled.int_val + &rhs.int_val;
             lhs.scale = rhs.scale;
         }
         Ordering::Greater => {
+            verif_probe!(AddAssign_Greater);
             let scaled = rhs.with_scale(lhs.scale);
             lhs.int_val += scaled.int_val;
         }
         Ordering::Equal => {
+            verif_probe!(AddAssign_Equal);
             lhs.int_val += &rhs.int_val;
         }
     }
@@ -136,6 +147,7 @@ fn add_unaligned_bigdecimal_ref_ref(
     debug_assert!(lhs.scale >= rhs.scale);
 
     let scale_diff = (lhs.scale - rhs.scale) as u64;
+    verif_probe!(AddRef_Unaligned);
 
     let shifted_rhs_digits = rhs.digits * ten_to_the_uint(scale_diff);
     let shifted_rhs_int = BigInt::from_biguint(rhs.sign, shifted_rhs_digits);
